@@ -48,6 +48,7 @@ func TestVerif(t *testing.T) {
 		verifGroups(t, r, out)
 	case "C16":
 		verifC16Parsed(t, r, out)
+		verifC16Mono(t, r, out)
 	default:
 		t.Fatalf("unknown VERIF_PROP %q for package config", prop)
 	}
